@@ -359,7 +359,8 @@ def run_C02(ctx, R):
     _per_config(ctx, R, parse.tab2_parse)
     _per_config(ctx, R, parse.tab4)
     _per_config(ctx, R, parse.tab5a)
-    _per_config(ctx, R, parse.tab6)
+    from .rules import codeset
+    _per_config(ctx, R, codeset.tab6)
     _per_config(ctx, R, _only_functions(parse.tab7, {'parse_number'}, 'TAB7', 1))
     _per_config(ctx, R, parse.c02_structure)
     _per_config(ctx, R, parse.tab21)
@@ -752,6 +753,7 @@ def run(pid, tier, seed=0):
         print('ANALYSIS-BROKEN property=%s: a rule did not behave as expected on its fixture' % pid)
         return 2
     ctx = Ctx(tier)
+    os.environ['CJSA_TIER'] = tier
     R = Results()
     facts, _extra = extract.check_build_config()
     for f in facts:
